@@ -112,7 +112,7 @@ def _paths_of_sd(sd, p=()):
 
 
 def _gen_c08(rng, max_stages):
-    g = S.Gen(rng, keys=("a", "b", "c"), atoms=(1, 2, 3, "x", None), tags=("notnew", "notnew", "new"),
+    g = S.Gen(rng, keys=("a", "b", "c"), atoms=(1, 2, 3, "x", None), tags=("notnew", "notnew", "new", "merge"),
               max_depth=rng.choice([2, 3, 4]), max_width=3, p_tag=0.3, p_empty=0.05)
     gb = S.Gen(rng, keys=("a", "b", "c"), atoms=(1, 2, 3, "x"), tags=(), max_depth=rng.choice([2, 3, 4]), max_width=3, p_tag=0.0, p_empty=0.05)
     n = rng.randint(2, max_stages)
@@ -230,8 +230,9 @@ BUILDER = {
     "C08": {
         "invariants": ["Inv_C08"],
         "driver": "cmdline",
-        "exh": {"quick": [("C08_Docs", 2, 2, "C08_Range"), ("C08_DocsFirst", 1, 1)],
-                "thorough": [("C08_Docs", 2, 2, "C08_Range"), ("C08_DocsFirst", 1, 1), ("C08_Docs3", 3, 3, "C08_Range3")]},
+        "exh": {"quick": [("C08_Docs", 2, 2, "C08_Range"), ("C08_DocsFirst", 1, 1), ("C08_DocsD", 2, 2, "C08_RangeD")],
+                "thorough": [("C08_Docs", 2, 2, "C08_Range"), ("C08_DocsFirst", 1, 1), ("C08_DocsD", 2, 2, "C08_RangeD"),
+                             ("C08_Docs3", 3, 3, "C08_Range3")]},
         "mutations": [{"mutation": "NotNewShallow", "docs": "C08_Docs", "range": "C08_Range", "stages": (2, 2), "expect": ["Inv_C08"]},
                       {"mutation": "NotNewSkipsFirst", "docs": "C08_DocsFirst", "stages": (1, 1), "expect": ["Inv_C08"]}],
         "gen": _gen_c08, "random": {"quick": 1500, "thorough": 30000}, "max_stages": 4,
